@@ -42,7 +42,7 @@ func opLevel(n *parser.ASTNode) (lv int, infix bool, ok bool) {
 func bracketed(n *parser.ASTNode, i int, c *parser.ASTNode) bool {
 	pl, pin, pok := opLevel(n)
 	cl, cin, cok := opLevel(c)
-	if pok && pin && i == 0 && c.Name == parser.NodeRETURN {
+	if pok && pin && i == 0 && c.Name == parser.NodeRETURN && len(c.Children) > 0 {
 		return true
 	}
 	if !pok || !cok {
